@@ -416,7 +416,7 @@ func init() {
 			}
 			return ""
 		},
-		Rule: "tables of 3-6 keys (values nil / empty / adversarial, data files of ~100-300 bytes) under each data compression; every byte offset of the data file x {bit 0 flipped, bit 7 flipped, 00, ff, 91, 4c} (all 255 values on some tables in the thorough tier), every truncation length, swaps of neighbouring records; default options (verify on load) and verify-on-read; Get of every key, Scan and ScanStartingAt. Non-trivial: >=2 keys and >10 damages.",
+		Rule: "every key is read twice on the same reader, every scan flavour once; two tables (thorough: 12) of 2049-5000 records with sampled damages concentrated in the last fifth of the data file; tables of 3-6 keys (values nil / empty / adversarial, data files of ~100-300 bytes) under each data compression; every byte offset of the data file x {bit 0 flipped, bit 7 flipped, 00, ff, 91, 4c} (all 255 values on some tables in the thorough tier), every truncation length, swaps of neighbouring records; default options (verify on load) and verify-on-read; Get of every key, Scan and ScanStartingAt. Non-trivial: >=2 keys and >10 damages.",
 	})
 }
 
